@@ -237,7 +237,7 @@ fn check_probe(c: &Timing, ts: &mina::TimeScale, probe: &PTimeline, t: f32, rank
 
 fn configs() -> Vec<Timing> {
     let mut v = vec![];
-    for &cycle in &[0.25f32, 1.0, 3.0, 0.3, 1.0e-3, 1.0e3] {
+    for &cycle in &[0.25f32, 1.0, 3.0, 0.3, 1.0e-3, 1.0e3, 1.0e-8] {
         // "any delay": negative delays (animation already under way at time 0) included
         for &delay in &[0.0f32, 0.5, 0.1, 7.0, -0.5, -0.3] {
             for rep in [Rep::None, Rep::Times(0), Rep::Times(1), Rep::Times(2), Rep::Times(7), Rep::Infinite] {
@@ -357,7 +357,7 @@ pub fn run(run: Run) -> ! {
     cov.insert("traces_validated_against_impl".into(), json!(acc.exact + acc.semi_exact + acc.windowed));
     cov.insert("evaluations".into(), json!(acc.evals + acc.probe_evals));
     cov.insert("distinct_nontrivial".into(), json!(acc.exact + acc.semi_exact + acc.windowed));
-    cov.insert("rule".into(), json!("432 timing configurations (cycle in {1/4,1,3,0.3,1e-3,1e3} x delay in {0,1/2,0.1,7,-1/2,-0.3} x repeat in {None,Times 0,1,2,7,Infinite} x reverse) x {every f32 within +-1024 (thorough 4096) ulp of every phase boundary delay+j*cycle/2 and of the delay, a 1/16 grid up to 20, 2^k(1+j/7) up to 1.5e7 (also offset by the delay), 1e6, 1e30, f32::MAX, MIN_POSITIVE, negative times}; thorough additionally sweeps EVERY finite f32 bit pattern (both signs) for 64 configurations. Oracle RefTimeScale: position in [0,1]; NotStarted iff t<delay (exact); when the arithmetic is exact (power-of-two cycle, exact t-delay) the phase, position and loop flags must equal the reference bit for bit; when only t-delay is exact the phase and flags must be equal and the position within 3 ulp(1) (the remainder is exact, only the division rounds); otherwise agreement with the reference at some t' within +-3 ulp(t) (position tolerance stated per case); when 3 ulp(t) >= cycle/4 only boundedness and far-from-end terminal consistency are asserted (counted as bounded_only). Metadata: delay/cycle/repeat exact, duration within 1.5 ulp of delay+cycle*(repeats+1), infinite iff Infinite; a linear 0->1 probe through Timeline::update must show exactly the position. non-trivial = evaluations compared with the reference (exact + windowed)"));
+    cov.insert("rule".into(), json!("504 timing configurations (cycle in {1/4,1,3,0.3,1e-3,1e3,1e-8} x delay in {0,1/2,0.1,7,-1/2,-0.3} x repeat in {None,Times 0,1,2,7,Infinite} x reverse) x {every f32 within +-1024 (thorough 4096) ulp of every phase boundary delay+j*cycle/2 and of the delay, a 1/16 grid up to 20, 2^k(1+j/7) up to 1.5e7 (also offset by the delay), 1e6, 1e30, f32::MAX, MIN_POSITIVE, negative times}; thorough additionally sweeps EVERY finite f32 bit pattern (both signs) for 64 configurations. Oracle RefTimeScale: position in [0,1]; NotStarted iff t<delay (exact); when the arithmetic is exact (power-of-two cycle, exact t-delay) the phase, position and loop flags must equal the reference bit for bit; when only t-delay is exact the phase and flags must be equal and the position within 3 ulp(1) (the remainder is exact, only the division rounds); otherwise agreement with the reference at some t' within +-3 ulp(t) (position tolerance stated per case); when 3 ulp(t) >= cycle/4 only boundedness and far-from-end terminal consistency are asserted (counted as bounded_only). Metadata: delay/cycle/repeat exact, duration within 1.5 ulp of delay+cycle*(repeats+1), infinite iff Infinite; a linear 0->1 probe through Timeline::update must show exactly the position. non-trivial = evaluations compared with the reference (exact + windowed)"));
     cov.insert("exhaustive".into(), json!(true));
     cov.insert("compared_exact".into(), json!(acc.exact));
     cov.insert("compared_exact_phase_position_within_3ulp".into(), json!(acc.semi_exact));
